@@ -82,6 +82,9 @@ def bind_cases(draw, tier):
         ops.append(g)
     if draw(st.integers(0, 3)) == 0:
         ops.insert(draw(st.integers(0, len(ops))), {"mp": [draw(_param(POOL)) for _ in range(2 ** n)]})
+    if draw(st.integers(0, 4)) == 0:
+        # the other non-gate operation of the library: a reset marker (no parameters) on some qubit
+        ops.insert(draw(st.integers(0, len(ops))), {"reset": draw(st.integers(0, n - 1))})
     keys = draw(st.lists(st.sampled_from(POOL + ["zz", "unused_1"]), unique=True, max_size=6))
     m = [[k, draw(value())] for k in keys]
     order = draw(st.permutations(list(range(len(m)))))
@@ -90,12 +93,14 @@ def bind_cases(draw, tier):
 
 
 def _build(spec):
-    from orquestra.quantum.circuits import Circuit, MultiPhaseOperation
+    from orquestra.quantum.circuits import Circuit, MultiPhaseOperation, ResetOperation
 
     ops = []
     for o in spec["ops"]:
         if "mp" in o:
             ops.append(MultiPhaseOperation(tuple(cgen.build_expr(p) for p in o["mp"])))
+        elif "reset" in o:
+            ops.append(ResetOperation(o["reset"]))
         else:
             ops.append(cgen.build_gate(o)(*o["q"]))
     return Circuit(ops, spec["n"])
@@ -276,6 +281,8 @@ def o_bind(spec):
         cl.add("symbolic_value")
     if any("mp" in o for o in spec["ops"]):
         cl.add("multiphase")
+    if any("reset" in o for o in spec["ops"]):
+        cl.add("reset_operation")
     if any(("g" in o) and o["g"] == "customsym" for o in spec["ops"]):
         cl.add("custom")
         if any(("g" in o) and o["g"] == "customsym" and set(cgen.expr_symbols(["x"] + o["p"])) & set(o["f"]) for o in spec["ops"]):
